@@ -263,6 +263,67 @@ class LockPatch:
                     setattr(mod, attr, self.factory)
         return self
 
+    def swap_live_locks(self, sched, prefix="spec_classes", depth=3):
+        """Replace every *existing* real lock reachable from the library's module globals (module-level locks, class
+        attributes, attributes of module-level / singleton objects, values of module-level dicts) by a cooperative
+        lock of `sched`. Returns an undo callable. This makes the harness independent of where the library keeps
+        its locks (a refactoring that moves a lock elsewhere must not turn into a harness stall)."""
+        lock_types = (type(_REAL_RLOCK()), type(_REAL_LOCK()))
+        undo, seen = [], set()
+
+        def own(obj):
+            return (getattr(type(obj), "__module__", "") or "").startswith(prefix)
+
+        def visit(obj, d):
+            if id(obj) in seen or d > depth:
+                return
+            seen.add(id(obj))
+            if isinstance(obj, dict):
+                items = list(obj.items())
+                setter = obj.__setitem__
+            elif isinstance(obj, type):
+                items = [(k, v) for k, v in vars(obj).items()]
+                setter = lambda k, v, o=obj: setattr(o, k, v)
+            elif hasattr(obj, "__dict__") and isinstance(getattr(obj, "__dict__", None), dict):
+                items = list(obj.__dict__.items())
+                setter = lambda k, v, o=obj: o.__dict__.__setitem__(k, v)
+            else:
+                return
+            for k, v in items:
+                if isinstance(v, lock_types):
+                    try:
+                        setter(k, sched.make_rlock())
+                        undo.append((setter, k, v))
+                    except Exception:
+                        pass
+                elif isinstance(v, CoopRLock):
+                    # a lock made by the factory for an earlier run: re-point it at this run's scheduler
+                    if v.sched is not sched:
+                        new = sched.make_rlock()
+                        try:
+                            setter(k, new)
+                            undo.append((setter, k, v))
+                        except Exception:
+                            pass
+                elif isinstance(v, type):
+                    if (getattr(v, "__module__", "") or "").startswith(prefix):
+                        visit(v, d + 1)
+                elif isinstance(v, dict) and not isinstance(obj, type) or own(v):
+                    visit(v, d + 1)
+
+        for name, mod in list(sys.modules.items()):
+            if name.startswith(prefix) and mod is not None:
+                visit(vars(mod), 0)
+
+        def restore():
+            for setter, k, v in reversed(undo):
+                try:
+                    setter(k, v)
+                except Exception:
+                    pass
+
+        return restore
+
     def uninstall(self):
         for mod, attr, orig in self.patched:
             setattr(mod, attr, orig)
